@@ -474,6 +474,27 @@ func (e *SpecEnv) callSpec(n SCall) (SVal, error) {
 			return SVal{V: Scalar{app(SByt, "str_bytes", s.T)}}, nil
 		}
 		return SVal{}, fmt.Errorf("content of %T", v.V)
+	case "subcontent": // subcontent(s, lo, hi): content abstraction of s[lo:hi]
+		if len(n.Args) != 3 {
+			return SVal{}, fmt.Errorf("subcontent(slice, lo, hi)")
+		}
+		v, err := e.eval(n.Args[0])
+		if err != nil {
+			return SVal{}, err
+		}
+		sl, ok := v.V.(SliceV)
+		if !ok {
+			return SVal{}, fmt.Errorf("subcontent of %T", v.V)
+		}
+		lo, err := e.evalTerm(n.Args[1])
+		if err != nil {
+			return SVal{}, err
+		}
+		hi, err := e.evalTerm(n.Args[2])
+		if err != nil {
+			return SVal{}, err
+		}
+		return SVal{V: Scalar{u.m.bytesContent(e.st, SliceV{sl.Arr, Add(sl.Off, lo), Sub(hi, lo), Sub(hi, lo)})}}, nil
 	case "bytes_content":
 		if len(n.Args) != 3 {
 			return SVal{}, fmt.Errorf("bytes_content(array, off, len)")
